@@ -336,6 +336,15 @@ func init() {
 	checks["C01"] = func(ld *Loaded, r *Run) {
 		r.verifyHelpers(ld, nil)
 		r.checkArms(ld, allEncodings(), nil, true, true)
+		// translator validation: the encoder that generated these VCs against the
+		// compiled code, by co-simulation on concrete samples
+		n := 256
+		if r.Tier == "thorough" {
+			n = 3 * 1786
+		}
+		if r.only == "" {
+			r.translatorValidation(ld, n)
+		}
 	}
 }
 
